@@ -367,6 +367,27 @@ func TestRace(t *testing.T) {
 				}
 			}
 			res.Counters["real-thread-transforms"]++
+		case "shared-traversal":
+			// several callers walk the SAME project at once: the walk promises not to modify it
+			p := project(g.N)
+			if g.N > 0 {
+				s := p.Services["s0"]
+				if s.DependsOn == nil {
+					s.DependsOn = types.DependsOnConfig{}
+				}
+				s.DependsOn["ghost"] = types.ServiceDependency{Condition: types.ServiceConditionStarted, Required: false}
+				p.Services["s0"] = s
+			}
+			var wg sync.WaitGroup
+			for i := 0; i < 2+g.Threads; i++ {
+				wg.Add(1)
+				go func() {
+					defer wg.Done()
+					_ = graph.InDependencyOrder(context.Background(), p, func(ctx context.Context, name string, s types.ServiceConfig) error { return nil })
+				}()
+			}
+			wg.Wait()
+			res.Counters["real-thread-shared-traversals"]++
 		case "traversal":
 			p := project(g.N)
 			var calls atomic.Int32
@@ -496,6 +517,9 @@ func TestRace(t *testing.T) {
 				nt[fmt.Sprintf("transform:%d:%d:%v:%d", g.N, g.FailAt, g.Perturb, g.Seed%64)] = true
 			default:
 				g.Kind = "traversal"
+				if master.n(4) == 0 {
+					g.Kind = "shared-traversal"
+				}
 				g.N = master.n(7)
 				g.Threads = master.n(4)
 				if master.n(3) == 0 && g.N > 0 {
